@@ -32,7 +32,7 @@ ASSUMPTIONS = [
 ]
 ANCHORS = ["dagrt.language:CodeBuilder._add_statement", "dagrt.language:CodeBuilder.fresh_var_name",
            "dagrt.language:CodeBuilder.if_", "dagrt.language:CodeBuilder.else_"]
-MIN_NONTRIVIAL = {"quick": 500, "thorough": 7000}
+MIN_NONTRIVIAL = {"quick": 500, "thorough": 24500}
 REQUIRED_COUNTERS = {"quick": ["schedules_executed", "conflict_pairs_checked", "fresh_names_observed",
                                "stores_compared"],
                      "thorough": ["schedules_executed", "conflict_pairs_checked", "fresh_names_observed",
@@ -41,7 +41,7 @@ SHARD_TIMEOUT = {"quick": 900, "thorough": 3400}
 
 
 def plan(tier, seed):
-    per = 70 if tier == "quick" else 900
+    per = 70 if tier == "quick" else 4500
     return [{"seed": f"C02:{seed}:{k}", "count": per, "nsched": 150 if tier == "quick" else 300}
             for k in range(16)]
 
